@@ -185,7 +185,7 @@ DEFAULT_PROFILE = dict(
     dip_spellings=True, result_dip=False, keyword_params=True, nested_structs=True,
     max_params=5, cb_struct_args=True, opt_slices=True, char=False, ordering=True,
     mut_self=True, opt_mut_oref=True, namespaces=False, byte_slices=True, renames=False,
-    strs_utf8=False,
+    strs_utf8=False, result_prim_err=True,
 )
 
 
@@ -328,19 +328,23 @@ class Gen:
             return ("ostr", self.pick(encs))
         if c < 0.84 and p["strs"]:
             return ("strs", self.pick(["ustr", "u16"] + (["utf8"] if p["strs_utf8"] else [])))
-        if c < 0.93 and p["option"]:
+        if c < 0.93 and (p["option"] or p["opt_slices"]):
             inner_c = self.r.random()
+            if not p["option"]:
+                inner_c = 0.8
             if inner_c < 0.4:
                 inner = ("prim", self.pick(self.prims()))
             elif inner_c < 0.55 and self.enums:
                 inner = ("enum", self.pick(self.enums).name)
             elif inner_c < 0.75 and [s for s in self.structs if not s.lifetimes]:
                 inner = ("struct", self.pick([s for s in self.structs if not s.lifetimes]).name)
-            elif p["opt_slices"] and inner_c < 0.9:
+            elif p["opt_slices"] and inner_c < 0.9 and (p["option"] or True):
                 inner = self.pick([("slice", self.pick(SLICE_PRIMS[:-1]), False, None, "std"), ("str", "ustr", None, "std")]
                                   + ([("str", "utf8", None, "std")] if p["utf8"] else []))
-            else:
+            elif p["option"]:
                 inner = ("prim", self.pick(self.prims()))
+            else:
+                return ("prim", self.pick(self.prims()))
             sp = "dip" if (p["dip_spellings"] and inner[0] in ("prim", "enum", "struct") and self.chance(0.4)) else "std"
             return ("opt", inner, sp)
         if p["callbacks"] and not ctx.get("has_cb") and self.chance(0.6):
@@ -397,6 +401,8 @@ class Gen:
         if c < 0.80:
             ok = self.simple_ret_payload(allow_unit=True)
             err = self.simple_ret_payload(allow_unit=True)
+            if not p["result_prim_err"] and err[0] == "prim":
+                err = ("unit",)
             return ("result", ok, err, "std")
         if p["borrowed_returns"]:
             return ("borrow?",)
